@@ -354,7 +354,13 @@ type c18Case struct {
 }
 
 func TestVerifC18(t *testing.T) {
-	r := vrt.Start("C18")
+	// The unit also serves C20 (no accepted stop/resume pair makes the
+	// connection limit unserviceable): the driver then sets VERIF_PROP.
+	prop := "C18"
+	if p := os.Getenv("VERIF_PROP"); p != "" {
+		prop = p
+	}
+	r := vrt.Start(prop)
 	var rc c18Case
 	if r.ReplayCase("limiter", &rc) {
 		var env *c18Env
